@@ -18,4 +18,5 @@ pub mod props {
     pub mod c10;
     pub mod c11;
     pub mod c12;
+    pub mod c13;
 }
